@@ -91,6 +91,16 @@ class BBStepSize(PGMStepSize):
         self.xprev = None
         self.gradprev = None
 
+    def internal_init(self, pgm: sop.PGM):
+        """Second stage initializer to be called by :meth:`.PGM.__init__`.
+
+        The previous iterate and gradient belong to the problem the object
+        was attached to before: they are discarded on (re-)attachment.
+        """
+        super().internal_init(pgm)
+        self.xprev = None
+        self.gradprev = None
+
     def update(self, v: Union[Array, BlockArray]) -> float:
         """Update the reciprocal of the step size.
 
@@ -178,6 +188,17 @@ class AdaptiveBBStepSize(PGMStepSize):
         self.Lbb1prev: Optional[float] = None
         self.Lbb2prev: Optional[float] = None
 
+    def internal_init(self, pgm: sop.PGM):
+        """Second stage initializer to be called by :meth:`.PGM.__init__`.
+
+        State carried over from a previous attachment is discarded.
+        """
+        super().internal_init(pgm)
+        self.xprev = None
+        self.gradprev = None
+        self.Lbb1prev = None
+        self.Lbb2prev = None
+
     def update(self, v: Union[Array, BlockArray]) -> float:
         """Update the reciprocal of the step size.
 
@@ -261,10 +282,24 @@ class LineSearchStepSize(PGMStepSize):
         self.gamma_u: float = gamma_u
         self.maxiter: int = maxiter
 
+        self._set_g_prox()
+
+    def _set_g_prox(self):
+        """Construct the jitted proximal step of the attached optimizer."""
+
         def g_prox(v, gradv, L):
             return self.pgm.g.prox(v - 1.0 / L * gradv, 1.0 / L)
 
         self.g_prox = jax.jit(g_prox)
+
+    def internal_init(self, pgm: sop.PGM):
+        """Second stage initializer to be called by :meth:`.PGM.__init__`.
+
+        The jitted proximal step closes over the functional `g` of the
+        optimizer, so it is reconstructed on (re-)attachment.
+        """
+        super().internal_init(pgm)
+        self._set_g_prox()
 
     def update(self, v: Union[Array, BlockArray]) -> float:
         """Update the reciprocal of the step size.
@@ -333,6 +368,17 @@ class RobustLineSearchStepSize(LineSearchStepSize):
         self.Zrb: Union[Array, BlockArray] = None
         #: Current estimate of solution in robust line search.
         self.Z: Union[Array, BlockArray] = None
+
+    def internal_init(self, pgm: sop.PGM):
+        """Second stage initializer to be called by :meth:`.PGM.__init__`.
+
+        The auxiliary sequences belong to the problem the object was
+        attached to before: they are discarded on (re-)attachment.
+        """
+        super().internal_init(pgm)
+        self.Tk = 0.0
+        self.Zrb = None
+        self.Z = None
 
     def update(self, v: Union[Array, BlockArray]) -> float:
         """Update the reciprocal of the step size.
